@@ -34,6 +34,9 @@ objsim.PROFILES.update(
         "c_readers_refs": dict(w=dict(_W, c_read=38, bind=14), force=dict(refs=True, urefs=True)),
         "c_writers": dict(w=dict(_W, c_set=34, c_read=6)),
         "c_calls": dict(w=dict(_W, c_call=40, c_read=2)),
+        # C20: restart, then compiled accessors on both sides (restored objects through the rebuilt
+        # kernel table of the unpickled context)
+        "c_restart": dict(w=dict(_W, restart=14, c_read=16, c_set=14, grow=4)),
     }
 )
 objsim.OP_PROP.update({"c_read": "C02", "c_set": "C07", "c_call": "C17"})
@@ -99,6 +102,37 @@ def base_address(buf):
 
 
 class CWorld(ObjWorld):
+    def build_on(self, ctx, kern=None, roots=None, sources=None):
+        """The accessor build of this world on `ctx` (the world's own context at start, the
+        unpickled context after a restart: its kernel table comes back empty, so a user who goes on
+        working with the restored objects has to build again)."""
+        c = self.spec["c"]
+        if kern is None:
+            kern, roots = {}, []
+            for t, cls in enumerate(self.classes):
+                if self.schema[t]["k"] in ("struct", "array", "uref"):
+                    kern.update(cls._gen_kernels())
+                    roots.append(cls)
+            sources = []
+            if c.get("probes"):
+                from . import cprobes
+
+                src, pk = cprobes.build(self, c["probes"])
+                sources.append(src)
+                kern.update(pk)
+        old = type(ctx)._compile_kernels_info
+        type(ctx)._compile_kernels_info = False
+        try:
+            ctx.add_kernels(
+                sources=sources,
+                kernels=kern,
+                extra_classes=roots,
+                extra_compile_args=(c.get("opt", "-O0"), "-Wno-unused-function"),
+                extra_link_args=(c.get("opt", "-O0"),),
+            )
+        finally:
+            type(ctx)._compile_kernels_info = old
+
     def compile(self):
         spec = self.spec
         c = spec["c"]
@@ -145,18 +179,7 @@ class CWorld(ObjWorld):
             src, pk = cprobes.build(self, probes)
             sources.append(src)
             kern.update(pk)
-        old = type(self.cctx)._compile_kernels_info
-        type(self.cctx)._compile_kernels_info = False
-        try:
-            self.cctx.add_kernels(
-                sources=sources,
-                kernels=kern,
-                extra_classes=roots,
-                extra_compile_args=(c.get("opt", "-O0"), "-Wno-unused-function"),
-                extra_link_args=(c.get("opt", "-O0"),),
-            )
-        finally:
-            type(self.cctx)._compile_kernels_info = old
+        self.build_on(self.cctx, kern, roots, sources)
         self.ffi = None
         for k in self.cctx.kernels.values():
             self.ffi = k.ffi_interface
@@ -207,7 +230,13 @@ class CGenSource(GenSource):
         # (a context on which OpenMP kernels were built keeps cffi functions and cannot be pickled)
         if any(c.get("omp") for c in w.spec["contexts"]):
             return None
-        return super().restart(w)
+        op = super().restart(w)
+        if op is not None and not getattr(self, "rebuilt", False) and self.rng.random() < 0.6:
+            # go on working with the restored objects the way a user has to: build the accessors
+            # again on the unpickled context and call them through its kernel table
+            self.rebuilt = True
+            op["rebuild"] = True
+        return op
 
     def c_read(self, w):
         got = self._pick_c_target(w, False)
@@ -229,8 +258,24 @@ class CGenSource(GenSource):
         return cprobes.gen_call(self, w)
 
 
+class _Abort(Exception):
+    """the step cannot go on after a violation it has just recorded"""
+
+
 class CStep(Step):
+    def execute(self):
+        try:
+            super().execute()
+        except _Abort:
+            if not self.viols:
+                raise
+
     def viol(self, prop, oracle, sig, detail=""):
+        o = getattr(self, "_cur_o", None)
+        if o is not None and prop in ("C02", "C07", "C17") and getattr(o.buf, "_sim_restored", False):
+            # compiled code applied to an object that came back from the pickled form: what it
+            # reads and where it writes is part of "fully usable ... independent of the original"
+            prop, sig = "C20", list(sig) + ["restored_object"]
         # the C02 oracles only read (values vs model, addresses vs decoder): under another lens the
         # model stays in step with the system, so the run goes on (same rule as Step.SOFT)
         if prop == "C02" and self.lens != "C02" and oracle.startswith(("c_get", "c_len", "c_typeid", "c_member", "accessor_")):
@@ -250,11 +295,38 @@ class CStep(Step):
         w.dec.decode(o.t, raw, o.off, o.bufid, lay, None, (), True)
         return {p: (s, e, kd) for p, s, e, kd in lay}
 
-    def _kernel(self, name):
+    def _kernel(self, name, o=None):
+        w = self.w
+        rctx = getattr(w, "rctx", None)
+        if rctx is not None and o is not None and o.buf.context is rctx:
+            # restored object on the context it came back with: the documented attribute form
+            if name not in rctx.kernels:
+                return None
+            self.res.probe("c_call_through_restored_context")
+            try:
+                return getattr(rctx.kernels, name)
+            except Exception as e:
+                self.viol("C20", "kernel_table_of_restored_context_unusable", ["restart", exc_sig(e)], f"ctx.kernels.{name}: {type(e).__name__}: {e}")
+                raise _Abort()
         try:
-            return self.w.cctx.kernels[name]
+            return w.cctx.kernels[name]
         except KeyError:
             return None
+
+    def op_restart(self):
+        super().op_restart()
+        w = self.w
+        if not self.op.get("rebuild") or self.viols or not getattr(self, "new_restored", False):
+            return
+        o = w.objs[self.op["id"]]
+        ctx = o.buf.context
+        try:
+            w.build_on(ctx)
+        except Exception as e:
+            self.viol("C20", "accessor_build_on_restored_context_raised", ["restart", exc_sig(e)], f"{type(e).__name__}: {str(e)[-600:]}")
+            return
+        w.rctx = ctx
+        self.res.fault("rebuild_on_restored_context")
 
     def _addr(self, ptr):
         return int(self.w.ffi.cast("intptr_t", ptr))
@@ -287,6 +359,7 @@ class CStep(Step):
         except DecodeError:
             return 0  # reported by the decoder oracle of the coherence pass
         root = self._root(o, at, via)
+        self._cur_o = o
         tname = schema[at_t]["name"]
         base = base_address(o.buf)
         feat = typegen.features(schema, at_t)
@@ -310,7 +383,7 @@ class CStep(Step):
             def call(action, nindex):
                 nonlocal ncalls
                 name, kw = acc_name(tname, action, path, nindex)
-                ker = self._kernel(name)
+                ker = self._kernel(name, o)
                 if ker is None:
                     self.viol("C02", "accessor_missing", [action, k, feat], f"no generated function {name} for path {path} of {tname}")
                     return None, name
@@ -401,7 +474,7 @@ class CStep(Step):
                     continue  # (a leaf reachable twice through shared references is set once)
                 done.add(ext[0])
                 name, kw = acc_name(tname, "set", path, False)
-                ker = self._kernel(name)
+                ker = self._kernel(name, o)
                 if ker is None:
                     self.viol("C07", "setter_missing", ["set", typegen.features(schema, o.t)], f"no generated function {name}")
                     return
@@ -446,7 +519,8 @@ class CStep(Step):
         tname = schema[at_t]["name"]
         name, kw = acc_name(tname, "set", path, False)
         feat = typegen.features(schema, at_t)
-        ker = self._kernel(name)
+        self._cur_o = o
+        ker = self._kernel(name, o)
         if ker is None:
             self.viol("C07", "setter_missing", ["set", feat], f"no generated function {name}")
             return
@@ -498,7 +572,7 @@ class CApiSim(ObjSim):
 
     def gen_world(self, rng, profile, tier):
         spec = objsim.gen_world(rng, profile, tier, no_twins=True)
-        omps = [rng.choice([0, 0, 0, 2, "auto"]) for _ in spec["contexts"]]
+        omps = [rng.choice([0, 0, 0, 2, "auto"]) if profile != "c_restart" else 0 for _ in spec["contexts"]]
         for c, o in zip(spec["contexts"], omps):
             c["omp"] = o
         spec["c"] = {"ctx": rng.randrange(len(spec["contexts"])), "opt": "-O3" if rng.random() < 0.1 else "-O0", "decoy": rng.random() < 0.3}
